@@ -228,6 +228,8 @@ pub struct Env {
     pub default_timeout: Duration,
     /// soft limit on open files for every process started through this Env (None: inherited)
     pub nofile: Option<u64>,
+    /// restrict monorail (and what it starts) to the first k CPUs (a small CI container)
+    pub cpus: Option<usize>,
 }
 
 impl Env {
@@ -253,6 +255,7 @@ impl Env {
             extra_env: vec![],
             default_timeout: Duration::from_secs(120),
             nofile: None,
+            cpus: None,
         }
     }
 
@@ -402,6 +405,20 @@ impl Env {
             .env("MRV_TRACE", &self.trace);
         for (k, v) in &self.extra_env {
             c.env(k, v);
+        }
+        if let Some(k) = self.cpus {
+            use std::os::unix::process::CommandExt;
+            unsafe {
+                c.pre_exec(move || {
+                    let mut set: libc::cpu_set_t = std::mem::zeroed();
+                    libc::CPU_ZERO(&mut set);
+                    for i in 0..k.max(1) {
+                        libc::CPU_SET(i, &mut set);
+                    }
+                    libc::sched_setaffinity(0, std::mem::size_of::<libc::cpu_set_t>(), &set);
+                    Ok(())
+                });
+            }
         }
         if let Some(n) = self.nofile {
             use std::os::unix::process::CommandExt;
